@@ -567,6 +567,13 @@ def fingerprint(node):
         rec.append(("parent_is_container", parent is None or n.parent is parent))
         rec.append(("edited", isinstance(n, gtree.EditedTreeNode)))
         rec.append(tuple(k for k in ANNOTATION_NAMES if k in getattr(n, "__dict__", {})))
+        if isinstance(n, gtree.EditedTreeNode):
+            # an edited tree (the result of an earlier comparison) handed to another comparison: what its
+            # annotations SAY is part of the tree
+            dd = getattr(n, "__dict__", {})
+            rec.append(("annotations", bool(dd.get("removed")), len(dd.get("inserted") or ()),
+                        dd.get("matched_to") is not None, len(dd.get("edit_list") or ()),
+                        type(dd.get("edit")).__name__))
         out.append(tuple(rec))
         try:
             kids = list(n.children())
